@@ -42,7 +42,8 @@ def wsgi_environ(method, path_info, *, script_name="", headers=None, body=b"", c
     env = {
         "REQUEST_METHOD": method,
         "SCRIPT_NAME": script_name,
-        "PATH_INFO": path_info,
+        # PEP 3333: PATH_INFO carries the percent-decoded bytes of the path, decoded as iso-8859-1
+        "PATH_INFO": path_info.encode("utf-8").decode("iso-8859-1"),
         "SERVER_NAME": "localhost",
         "SERVER_PORT": "80",
         "wsgi.url_scheme": "http",
